@@ -383,6 +383,8 @@ func runC08(c *Ctx, r *Report) {
 	c08R4(c, r, "C08.R4")
 	c08R5(c, r, "C08.R5")
 	c08R6(c, r, "C08.R6")
+	c02R6(c, r, "C08.R8") // a compiled handler chain cached across connections would capture one connection's continuation
+	c10R5(c, r, "C08.R9") // the shared round-robin position advances by one atomic read-modify-write per probe
 	c13R3(c, r, "C08.R7") // the hand-off release discipline is also a C08 obligation (buffer shared across connections)
 }
 
@@ -892,6 +894,8 @@ func runC09(c *Ctx, r *Report) {
 	c09R5(c, r, "C09.R5")
 	c09R6(c, r, "C09.R6")
 	c09R7(c, r, "C09.R7")
+	c09R8(c, r, "C09.R8")
+	c09R9(c, r, "C09.R9")
 }
 
 func c09R1(c *Ctx, r *Report, rule string) {
@@ -1954,4 +1958,128 @@ func (c *Ctx) valueLikeGlobal(name string) (string, bool) {
 		}
 	}
 	return "value-like (" + typeStr(t) + "), never written outside init", true
+}
+
+// c09R8: the datagram buffers keep their full size through the pool. What is stored in a datagram record and what
+// is put back into the pool is the slice obtained from the pool, never a shortened view of it: the reader goroutine
+// hands the pooled slice to ReadFrom as it is, so a shortened slice truncates every later, longer datagram.
+func c09R8(c *Ctx, r *Report, rule string) {
+	r.rule(rule, "every value put into the datagram buffer pool, and every value stored as a record's pooled buffer, is the slice obtained from the pool (or allocated at full size) - no sub-slice of it: the datagram's length travels separately", 4)
+	isPool := func(v ssa.Value) bool {
+		g, ok := v.(*ssa.Global)
+		return ok && globalName(g) == "layer4.udpBufPool"
+	}
+	var sliced func(v ssa.Value, seen map[ssa.Value]bool, d int) string
+	sliced = func(v ssa.Value, seen map[ssa.Value]bool, d int) string {
+		if v == nil || seen[v] || d > 25 {
+			return ""
+		}
+		seen[v] = true
+		switch x := v.(type) {
+		case *ssa.Slice:
+			if x.High != nil || x.Low != nil {
+				return c.ipos(x)
+			}
+			return sliced(x.X, seen, d+1)
+		case *ssa.Phi:
+			for _, e := range x.Edges {
+				if s := sliced(e, seen, d+1); s != "" {
+					return s
+				}
+			}
+		case *ssa.TypeAssert:
+			return sliced(x.X, seen, d+1)
+		case *ssa.ChangeType:
+			return sliced(x.X, seen, d+1)
+		case *ssa.UnOp:
+			if x.Op != token.MUL {
+				return ""
+			}
+			if _, sn, f, ok := fieldAddr(x.X); ok && f == "pooledBuf" {
+				for _, fn := range c.Funcs {
+					for _, st := range storesToField(fn, sn, f) {
+						if s := sliced(st.Val, seen, d+1); s != "" {
+							return s
+						}
+					}
+				}
+				return ""
+			}
+			if al, ok := x.X.(*ssa.Alloc); ok {
+				for _, sv := range storesToDeep(al) {
+					if s := sliced(sv, seen, d+1); s != "" {
+						return s
+					}
+				}
+			}
+		}
+		return ""
+	}
+	n := 0
+	for _, fn := range c.Funcs {
+		for _, ci := range callsIn(fn) {
+			if calleeID(ci) == "(*sync.Pool).Put" && isPool(ci.Common().Args[0]) {
+				n++
+				arg := ci.Common().Args[1]
+				if mi, ok := arg.(*ssa.MakeInterface); ok {
+					arg = mi.X
+				}
+				s := sliced(arg, map[ssa.Value]bool{}, 0)
+				r.check(s == "", rule, fname(fn), fmt.Sprintf("Put#%d", n), c.ipos(ci), "the pooled slice itself goes back", "a shortened view of the pooled buffer (sliced at "+s+") is returned to the pool: the reader goroutine later passes it to ReadFrom as it is and longer datagrams are cut to that length")
+			}
+		}
+		for _, st := range storesToField(fn, "layer4.packet", "pooledBuf") {
+			n++
+			s := sliced(st.Val, map[ssa.Value]bool{}, 0)
+			r.check(s == "", rule, fname(fn), fmt.Sprintf("record buffer#%d", n), c.ipos(st), "the record carries the pooled slice itself", "the record's pooled buffer is a sub-slice (sliced at "+s+") of what the pool handed out: it comes back to the pool shortened")
+		}
+	}
+}
+
+// c09R9: Close releases before it notifies. The server loop may be blocked handing this association a datagram
+// (its queue is full); only closing the association's `closed` channel lets it go on. The notification on the shared
+// channel can block (it is drained by that same loop), so it must come after.
+func c09R9(c *Ctx, r *Report, rule string) {
+	r.rule(rule, "packetConn.Close (path evaluation): close(closed) and the drain of the queue precede every send on the close-notification channel", 1)
+	fnName := "layer4.(*packetConn).Close"
+	fn := c.Fn(fnName)
+	if fn == nil {
+		r.bad(rule, fnName, "exists", "-", "function not found")
+		return
+	}
+	sc := &Scenario{Name: "close", MaxVisit: 4, Params: map[string]SV{"recv": symRef("recv", false)}, Heap: map[string]SV{"recv.lastPacket": symNil()}}
+	paths, err := evalPaths(fn, sc)
+	if err != nil || len(paths) == 0 {
+		r.bad(rule, fnName, sc.Name, c.pos(fn.Pos()), fmt.Sprintf("undecided: %v", err))
+		return
+	}
+	var problems []string
+	notified := 0
+	for _, p := range paths {
+		closedAt, sendAt := -1, -1
+		for i, e := range p.Trace {
+			if e.Kind == "call" && e.What == "builtin close" && len(e.Args) > 0 && strings.HasSuffix(e.Args[0], ".closed") && closedAt < 0 {
+				closedAt = i
+			}
+			if e.Kind == "send" && strings.HasSuffix(e.What, ".closeCh") && sendAt < 0 {
+				sendAt = i
+			}
+		}
+		if p.Outcome != "return" {
+			continue
+		}
+		if sendAt >= 0 {
+			notified++
+		}
+		if sendAt >= 0 && (closedAt < 0 || closedAt > sendAt) {
+			problems = append(problems, "the notification is sent before close(closed): with the notification channel full and the server loop blocked on this association's full queue, Close and the loop wait for each other and the listener stops serving every client: "+fmtTrace(p))
+		}
+		if closedAt < 0 {
+			problems = append(problems, "a path of Close does not close the association's `closed` channel")
+		}
+	}
+	if notified == 0 {
+		problems = append(problems, "no path notifies the server loop")
+	}
+	r.check(len(problems) == 0, rule, fnName, "release before notify", c.pos(fn.Pos()), fmt.Sprintf("%d paths", len(paths)), strings.Join(dedup(problems), "; "))
 }
